@@ -247,11 +247,29 @@ func c12Counters(shapes []histmodel.Shape, float bool) []histalpha.Atom {
 	return out
 }
 
+func c12NoCustom(in []histalpha.Atom) []histalpha.Atom {
+	var out []histalpha.Atom
+	for _, a := range in {
+		if !a.M.Custom {
+			out = append(out, a)
+		}
+	}
+	return out
+}
+
+// c12Small is the small alphabet of C11 plus the shifted shape (a reset visible only per bucket).
+func c12Small() []histmodel.Shape {
+	s := histalpha.SmallShapes()
+	return append(s, histalpha.Shifted(histmodel.Shapes()))
+}
+
 func c12Alphas() map[string]c12Alpha {
 	m := map[string]c12Alpha{}
 	for _, a := range []c12Alpha{
-		{"small-int", c12Counters(histalpha.SmallShapes(), false)},
-		{"small-float", c12Counters(histalpha.SmallShapes(), true)},
+		{"small-int", c12Counters(c12Small(), false)},
+		{"small-float", c12Counters(c12Small(), true)},
+		{"small10-int", c12NoCustom(c12Counters(c12Small(), false))},
+		{"small10-float", c12NoCustom(c12Counters(c12Small(), true))},
 		{"full-int", c12Counters(histalpha.FullShapes(), false)},
 		{"full-float", c12Counters(histalpha.FullShapes(), true)},
 	} {
@@ -363,6 +381,42 @@ type c12mCase struct {
 	Alpha string   `json:"alpha"`
 	Seq   []string `json:"seq"`
 	Place []int    `json:"place"` // per sample: bit set of the stores (1,2,4) holding it
+	// Cut: every store is encoded like a head that cuts a new chunk before every sample, passing
+	// the previous appender (so chunk headers carry NotCounterReset / CounterReset / unknown as
+	// computed against the previous chunk). Otherwise storage.NewSeriesToChunkEncoder encodes.
+	Cut bool `json:"cut"`
+}
+
+// c12EncodeCut encodes samples one per chunk with the head's protocol (memSeries.appendHistogram:
+// new chunk, previous appender handed to the first append of the new chunk).
+func c12EncodeCut(samples []chunks.Sample) ([]chunks.Meta, error) {
+	var metas []chunks.Meta
+	var prev chunkenc.Appender
+	for _, sm := range samples {
+		c, err := chunkenc.NewEmptyChunk(sm.Type().ChunkEncoding(false, false))
+		if err != nil {
+			return nil, err
+		}
+		app, err := c.Appender()
+		if err != nil {
+			return nil, err
+		}
+		var nc chunkenc.Chunk
+		if sm.Type() == chunkenc.ValHistogram {
+			nc, _, app, err = app.AppendHistogram(prev, 0, sm.T(), sm.H(), false)
+		} else {
+			nc, _, app, err = app.AppendFloatHistogram(prev, 0, sm.T(), sm.FH(), false)
+		}
+		if err != nil {
+			return nil, err
+		}
+		if nc != nil {
+			return nil, fmt.Errorf("first append to an empty chunk returned a new chunk")
+		}
+		prev = app
+		metas = append(metas, chunks.Meta{Chunk: c, MinTime: sm.T(), MaxTime: sm.T()})
+	}
+	return metas, nil
 }
 
 type c12ChunkSet struct {
@@ -383,10 +437,12 @@ func c12NewChunkSet(lset labels.Labels, metas []chunks.Meta) *c12ChunkSet {
 	}}}
 }
 
-func c12mRun(r *vx.Run, st *c12Stats, al c12Alpha, seq []int, place []int, it *chunkenc.Iterator) {
-	rp := func() any { return c12mCase{Alpha: al.name, Seq: histalpha.Names(al.atoms, seq), Place: place} }
+func c12mRun(r *vx.Run, st *c12Stats, al c12Alpha, seq []int, place []int, cut bool, it *chunkenc.Iterator) {
+	rp := func() any {
+		return c12mCase{Alpha: al.name, Seq: histalpha.Names(al.atoms, seq), Place: place, Cut: cut}
+	}
 	viol := func(sig, msg string) {
-		r.Violation(sig, fmt.Sprintf("sequence %v placement %v: %s", histalpha.Names(al.atoms, seq), place, msg), rp())
+		r.Violation(sig, fmt.Sprintf("sequence %v placement %v cut=%v: %s", histalpha.Names(al.atoms, seq), place, cut, msg), rp())
 	}
 	lset := c12Labels(0)
 	// encode every store
@@ -406,6 +462,10 @@ func c12mRun(r *vx.Run, st *c12Stats, al c12Alpha, seq []int, place []int, it *c
 		var metas []chunks.Meta
 		var err error
 		p, stack := vx.Guard(func() {
+			if cut {
+				metas, err = c12EncodeCut(samples)
+				return
+			}
 			cit := storage.NewSeriesToChunkEncoder(storage.NewListSeries(lset, samples)).Iterator(nil)
 			for cit.Next() {
 				metas = append(metas, cit.At())
@@ -604,7 +664,7 @@ func TestVerifC12m(t *testing.T) {
 			seq = append(seq, histalpha.Index(al.atoms, n))
 		}
 		var it chunkenc.Iterator
-		c12mRun(r, st, al, seq, c.Place, &it)
+		c12mRun(r, st, al, seq, c.Place, c.Cut, &it)
 		return
 	}
 	c12SelfTest(t)
@@ -623,8 +683,8 @@ func TestVerifC12m(t *testing.T) {
 		phases = []phase{
 			{"full-int", 1, 3}, {"full-float", 1, 3}, {"full-int", 2, 3}, {"full-float", 2, 3},
 			{"small-int", 3, 3}, {"small-float", 3, 3},
-			{"full-int", 3, 1}, {"full-float", 3, 1},
-			{"small-int", 4, 1}, {"small-float", 4, 1},
+			{"full-int", 3, 1},
+			{"small-int", 4, 1},
 		}
 	}
 	var desc []string
@@ -637,7 +697,15 @@ func TestVerifC12m(t *testing.T) {
 			seq := vx.SeqAt(len(al.atoms), ph.n, ph.n, i, nil)
 			var it chunkenc.Iterator
 			for _, pl := range places {
-				c12mRun(r, st, al, seq, pl, &it)
+				c12mRun(r, st, al, seq, pl, false, &it)
+				single := true
+				for _, m := range pl {
+					single = single && m&(m-1) == 0
+				}
+				if single && ph.n > 1 {
+					// one store per sample: also with every store cut into one-sample chunks
+					c12mRun(r, st, al, seq, pl, true, &it)
+				}
 			}
 			k := n.Add(1)
 			r.SampleAt(k, func() any {
@@ -660,7 +728,7 @@ func TestVerifC12m(t *testing.T) {
 	r.Count("not_counter_reset_markings_checked", int(st.marked.Load()))
 	r.Count("results_checked", int(st.queries.Load()))
 	r.Set("phases_merge", desc)
-	r.Set("rule_merge", "part m: every sequence of counter atoms of one representation (int or float) with timestamps 1000,1100,...; every placement of the samples into non-empty subsets of three stores; each store encoded by storage.NewSeriesToChunkEncoder; sample-level merge = NewMergeSeriesSet(NewSeriesSetFromChunkSeriesSet(store)..., ChainedSeriesMerge) read by Next, by Seek(t_i) on a recycled iterator and by i x Next followed by Seek(t_i); chunk-level merge = NewMergeChunkSeriesSet(..., NewCompactingChunkSeriesMerger(ChainedSeriesMerge)). distinct_nontrivial counts the enumerated (sequence, placement) cases (distinct by construction) in which at least one returned sample was marked NotCounterReset, i.e. the oracle had something to verify.")
+	r.Set("rule_merge", "part m: every sequence of counter atoms of one representation (int or float) with timestamps 1000,1100,...; every placement of the samples into non-empty subsets of three stores; each store encoded by storage.NewSeriesToChunkEncoder and, for placements with one store per sample, also as one-sample chunks cut with the head's previous-appender protocol (chunk headers NotCounterReset/CounterReset/unknown); sample-level merge = NewMergeSeriesSet(NewSeriesSetFromChunkSeriesSet(store)..., ChainedSeriesMerge) read by Next, by Seek(t_i) on a recycled iterator and by i x Next followed by Seek(t_i); chunk-level merge = NewMergeChunkSeriesSet(..., NewCompactingChunkSeriesMerger(ChainedSeriesMerge)). distinct_nontrivial counts the enumerated (sequence, placement) cases (distinct by construction) in which at least one returned sample was marked NotCounterReset, i.e. the oracle had something to verify.")
 	r.Set("rule", "see rule_db (part d) and rule_merge (part m)")
 	if !r.Expired() && (st.marked.Load() == 0 || len(st.hintsSeen.m) < 2) {
 		t.Fatalf("vacuous: %d markings checked, %d distinct hint patterns", st.marked.Load(), len(st.hintsSeen.m))
@@ -706,6 +774,21 @@ func c12Splits(n int, stores int) []c12Split {
 
 type c12dCfg struct {
 	OOOCap int64 `json:"ooo_cap"`
+	// Cut > 0: a chunk-range boundary (head chunk range 2000) lies before sample Cut, so the head
+	// and the block writers cut a new chunk there by time and compute its header against the
+	// previous chunk.
+	Cut int `json:"cut"`
+}
+
+// t is the timestamp of sample i in part d: 1900, 1910, ... (all inside chunk range [0,2000)),
+// samples from Cut on shifted by 100 into the next chunk range. The whole series spans far less
+// than half a chunk range, so the head-wide append window (max time - range/2) never interferes.
+func (c c12dCfg) t(i int) int64 {
+	t := 1900 + 10*int64(i)
+	if c.Cut > 0 && i >= c.Cut {
+		t += 100
+	}
+	return t
 }
 
 type c12dCase struct {
@@ -819,7 +902,7 @@ func (b *c12dBatch) stage(db *DB, stage string) bool {
 			b.r.Distinct("distinct_outcomes", h)
 		}
 	}
-	if !b.al.atoms[0].Float {
+	if stage == "live" && !b.al.atoms[0].Float {
 		var ff [][]c12Sample
 		p, stack := vx.Guard(func() { ff, err = b.readSamples(db, math.MinInt64, math.MaxInt64, true) })
 		if p != nil || err != nil {
@@ -840,9 +923,9 @@ func (b *c12dBatch) stage(db *DB, stage string) bool {
 				continue
 			}
 			var res [][]c12Sample
-			p, stack := vx.Guard(func() { res, err = b.readSamples(db, c12T(i), c12T(j), true) })
+			p, stack := vx.Guard(func() { res, err = b.readSamples(db, b.cfg.t(i), b.cfg.t(j), true) })
 			if p != nil || err != nil {
-				b.viol(0, "db-"+stage+"-query-error", fmt.Sprintf("(some series of the batch) range [%d,%d]: %v %v\n%s", c12T(i), c12T(j), p, err, c12Trim(stack)))
+				b.viol(0, "db-"+stage+"-query-error", fmt.Sprintf("(some series of the batch) range [%d,%d]: %v %v\n%s", b.cfg.t(i), b.cfg.t(j), p, err, c12Trim(stack)))
 				return false
 			}
 			for k := range b.items {
@@ -854,9 +937,9 @@ func (b *c12dBatch) stage(db *DB, stage string) bool {
 				}
 				if what != "" && c12KnownRangeStart(res[k], full[k], at) {
 					// soft: known finding, exploration continues
-					b.viol(k, "range-start-mark-ignores-intervening-sample", fmt.Sprintf("stage %s range [%d,%d]: %s (%s) [hints %s, unrestricted %s]", stage, c12T(i), c12T(j), msg, what, c12Hints(res[k]), c12Hints(full[k])))
+					b.viol(k, "range-start-mark-ignores-intervening-sample", fmt.Sprintf("stage %s range [%d,%d]: %s (%s) [hints %s, unrestricted %s]", stage, b.cfg.t(i), b.cfg.t(j), msg, what, c12Hints(res[k]), c12Hints(full[k])))
 				} else if what != "" {
-					b.viol(k, "db-"+stage+"-range-"+what, fmt.Sprintf("range [%d,%d]: %s [hints %s, unrestricted %s]", c12T(i), c12T(j), msg, c12Hints(res[k]), c12Hints(full[k])))
+					b.viol(k, "db-"+stage+"-range-"+what, fmt.Sprintf("range [%d,%d]: %s [hints %s, unrestricted %s]", b.cfg.t(i), b.cfg.t(j), msg, c12Hints(res[k]), c12Hints(full[k])))
 				}
 			}
 		}
@@ -895,7 +978,7 @@ func (b *c12dBatch) run() {
 	}
 	appendOne := func(app storage.Appender, k, i int) error {
 		h, fh := b.al.atoms[b.items[k].seq[i]].Fresh()
-		_, err := app.AppendHistogram(0, lsets[k], c12T(i), h, fh)
+		_, err := app.AppendHistogram(0, lsets[k], b.cfg.t(i), h, fh)
 		return err
 	}
 	// blocks B1, B2 (written like a backfill, outside the DB directory, moved in later)
@@ -919,7 +1002,7 @@ func (b *c12dBatch) run() {
 		}
 		failed := false
 		p, stack := vx.Guard(func() {
-			w, err := NewBlockWriter(promslog.NewNopLogger(), stageDir, 1000000)
+			w, err := NewBlockWriter(promslog.NewNopLogger(), stageDir, 2000)
 			if err != nil {
 				panic(err)
 			}
@@ -958,8 +1041,8 @@ func (b *c12dBatch) run() {
 		}
 	}
 	o := DefaultOptions()
-	o.MinBlockDuration = 1000000
-	o.MaxBlockDuration = 10000000
+	o.MinBlockDuration = 2000
+	o.MaxBlockDuration = 20000
 	o.WALSegmentSize = 1 << 20
 	o.StripeSize = 64
 	o.NoLockfile = true
@@ -1072,30 +1155,32 @@ func TestVerifC12d(t *testing.T) {
 	type phase struct {
 		alpha  string
 		n      int
-		stores int // 3: head + two blocks; 2: head + one block
-		caps   []int64
+		stores int // 3: head + two blocks; 2: head + one block; 1: head only
+		cfgs   []c12dCfg
 	}
+	cfg := func(cap int64, cut int) c12dCfg { return c12dCfg{OOOCap: cap, Cut: cut} }
 	var phases []phase
 	if r.Quick() {
 		phases = []phase{
-			{"small-int", 1, 3, []int64{32}}, {"small-float", 1, 3, []int64{32}},
-			{"full-int", 2, 3, []int64{32}}, {"full-float", 2, 3, []int64{32}},
-			{"small-int", 3, 3, []int64{32, 1}}, {"small-float", 3, 3, []int64{32}},
+			{"small-int", 1, 3, []c12dCfg{cfg(32, 0)}}, {"small-float", 1, 3, []c12dCfg{cfg(32, 0)}},
+			{"full-int", 2, 3, []c12dCfg{cfg(32, 0), cfg(32, 1)}}, {"full-float", 2, 3, []c12dCfg{cfg(32, 0)}},
+			{"small10-int", 3, 3, []c12dCfg{cfg(32, 0), cfg(32, 1), cfg(32, 2), cfg(1, 0)}},
+			{"small10-float", 3, 3, []c12dCfg{cfg(32, 2)}},
 		}
 	} else {
+		all3 := []c12dCfg{cfg(32, 0), cfg(32, 1), cfg(32, 2), cfg(1, 0), cfg(1, 2)}
 		phases = []phase{
-			{"small-int", 1, 3, []int64{32}}, {"small-float", 1, 3, []int64{32}},
-			{"full-int", 2, 3, []int64{32, 1}}, {"full-float", 2, 3, []int64{32, 1}},
-			{"small-int", 3, 3, []int64{32, 1}}, {"small-float", 3, 3, []int64{32, 1}},
-			{"full-int", 3, 2, []int64{32}}, {"full-float", 3, 2, []int64{32}},
-			{"small-int", 4, 2, []int64{32}},
+			{"small-int", 1, 3, []c12dCfg{cfg(32, 0)}}, {"small-float", 1, 3, []c12dCfg{cfg(32, 0)}},
+			{"full-int", 2, 3, []c12dCfg{cfg(32, 0), cfg(32, 1), cfg(1, 0)}}, {"full-float", 2, 3, []c12dCfg{cfg(32, 1)}},
+			{"small-int", 3, 3, all3}, {"small-float", 3, 3, []c12dCfg{cfg(32, 0), cfg(32, 2)}},
+			{"small10-int", 4, 1, []c12dCfg{cfg(32, 2)}},
 		}
 	}
 	const batchSize = 16384
 	type job struct {
 		ph       int
 		from, to int64 // range of (sequence, split) case indices
-		cap      int64
+		cfg      c12dCfg
 	}
 	var jobs []job
 	splitsOf := make([][]c12Split, len(phases))
@@ -1103,7 +1188,7 @@ func TestVerifC12d(t *testing.T) {
 		splitsOf[pi] = c12Splits(ph.n, ph.stores)
 		total := vx.SeqCount(len(alphas[ph.alpha].atoms), ph.n, ph.n) * int64(len(splitsOf[pi]))
 		for from := int64(0); from < total; from += batchSize {
-			for _, c := range ph.caps {
+			for _, c := range ph.cfgs {
 				jobs = append(jobs, job{pi, from, min(from+batchSize, total), c})
 			}
 		}
@@ -1118,7 +1203,7 @@ func TestVerifC12d(t *testing.T) {
 		ph := phases[j.ph]
 		al := alphas[ph.alpha]
 		sp := splitsOf[j.ph]
-		b := &c12dBatch{r: r, st: st, al: al, n: ph.n, cfg: c12dCfg{OOOCap: j.cap}}
+		b := &c12dBatch{r: r, st: st, al: al, n: ph.n, cfg: j.cfg}
 		for c := j.from; c < j.to; c++ {
 			seq := vx.SeqAt(len(al.atoms), ph.n, ph.n, c/int64(len(sp)), nil)
 			b.items = append(b.items, c12dItem{seq, sp[c%int64(len(sp))]})
@@ -1140,7 +1225,7 @@ func TestVerifC12d(t *testing.T) {
 		if phaseDone[pi].Load() != jobsPer[pi] {
 			state = fmt.Sprintf("%d of %d batches", phaseDone[pi].Load(), jobsPer[pi])
 		}
-		desc = append(desc, fmt.Sprintf("%s (%d atoms) length %d x %d splits over %d stores x OOO chunk capacity %v: %s", ph.alpha, len(alphas[ph.alpha].atoms), ph.n, len(splitsOf[pi]), ph.stores, ph.caps, state))
+		desc = append(desc, fmt.Sprintf("%s (%d atoms) length %d x %d splits over %d stores x configurations (OOO chunk capacity, chunk-range cut before sample) %v: %s", ph.alpha, len(alphas[ph.alpha].atoms), ph.n, len(splitsOf[pi]), ph.stores, ph.cfgs, state))
 	}
 	r.Count("evaluations", int(st.cases.Load()))
 	r.Count("distinct_nontrivial", int(st.casesMarked.Load()))
@@ -1149,7 +1234,7 @@ func TestVerifC12d(t *testing.T) {
 	r.Count("not_counter_reset_markings_checked", int(st.marked.Load()))
 	r.Count("results_checked", int(st.queries.Load()))
 	r.Set("phases_db", desc)
-	r.Set("rule_db", "part d: every sequence of counter atoms of one representation is one series (timestamps 1000,1100,...) of a real tsdb.DB (up to 16384 series per DB); every split assigns each sample to the head or to one of two backfilled blocks (written with BlockWriter, moved into the DB directory, reloadBlocks) and every append order of the head samples (a sample older than an earlier-appended one lands in the out-of-order head). Reads: DB.Querier full range, DB.Querier for every proper sub-range [t_i,t_j], DB.ChunkQuerier full range; at five stages: live, after CompactOOOHead, after Compact (vertical merge of the overlapping blocks), after CompactHead, after a final Compact. distinct_nontrivial counts the enumerated (sequence, split, configuration) cases (distinct by construction) in which at least one returned sample was marked NotCounterReset.")
+	r.Set("rule_db", "part d: every sequence of counter atoms of one representation is one series (timestamps 1900,1910,...) of a real tsdb.DB (up to 16384 series per DB); every split assigns each sample to the head or to one of two backfilled blocks (written with BlockWriter, moved into the DB directory, reloadBlocks) and every append order of the head samples (a sample older than an earlier-appended one lands in the out-of-order head). Configurations: OOO chunk capacity 32 or 1; optionally a head chunk-range boundary before one of the samples (the head and the block writers then cut a chunk by time and compute its header against the previous chunk). Reads: DB.Querier full range (integer histograms also through AtFloatHistogram at the live stage), DB.Querier for every proper sub-range [t_i,t_j] (through AtFloatHistogram), DB.ChunkQuerier full range; at five stages: live, after CompactOOOHead, after Compact (vertical merge of the overlapping blocks), after CompactHead, after a final Compact. distinct_nontrivial counts the enumerated (sequence, split, configuration) cases (distinct by construction) in which at least one returned sample was marked NotCounterReset.")
 	r.Set("rule", "see rule_db (part d) and rule_merge (part m)")
 	r.Assume("C12 presupposes complete results (C01/C11): a series whose full-range result misses samples is reported as db-*-sample-count and not examined further")
 	if !r.Expired() && (st.marked.Load() == 0 || len(st.hintsSeen.m) < 2) {
